@@ -88,7 +88,9 @@ def install(I):
                 c = I.compare('Lt' if is_min else 'Gt', x, best)
                 # scalar compared with a constant (a clamp): merge the two paths with ite;
                 # two symbolic operands (max(r, g, b)): fork, which keeps each path's formula simple
-                if I.spec_mode or (is_num(x) and is_num(best) and not (isinstance(x, SymVal) and isinstance(best, SymVal))):
+                # (only when both have the same int/float kind: max(0, 0.0) is the int, and the kind shows when printed)
+                if I.spec_mode or (is_num(x) and is_num(best) and not (isinstance(x, SymVal) and isinstance(best, SymVal))
+                                   and (ops.num_kind(x) == ops.num_kind(best) or getattr(I, 'minmax_merge', False))):
                     ct = I.truth_term(c)
                     best = (x if ct else best) if isinstance(ct, bool) else I.ite(ct, x, best)
                 elif I.truth(c):
@@ -169,7 +171,17 @@ def install(I):
             return PyList(sorted(items))
         if len(items) <= 1:
             return PyList(items)
-        raise _interp_mod().Unsupported('sorted() of symbolic items')
+        if k.get('key') is not None or k.get('reverse'):
+            raise _interp_mod().Unsupported('sorted() of symbolic items with key / reverse')
+        if len(items) > 6:
+            raise _interp_mod().Unsupported('sorted() of more than 6 symbolic items')
+        out = []            # stable insertion sort, one fork per undecided comparison
+        for x in items:
+            pos = len(out)
+            while pos > 0 and I.truth(I.compare('Lt', x, out[pos - 1])):
+                pos -= 1
+            out.insert(pos, x)
+        return PyList(out)
 
     @reg('enumerate')
     def _enumerate(I, a, k):
